@@ -49,7 +49,7 @@ public:
 
     void do_op( int t, TOp const& o )
     {
-        Ev e; e.thread = t; e.kind = o.kind; e.n = o.n; e.inv = cds_verif::stamp();
+        Ev e; e.thread = t; e.kind = o.kind; e.n = o.n; cds_verif::stamp_inv( &e.inv );
         if ( o.kind == 'p' ) {
             std::vector<Pay> arr; for ( int i = 0; i < o.n; ++i ) { e.vals.push_back( next_ ); arr.emplace_back( next_++ ); }
             e.ok = o.n == 1 ? r_->push( arr[0] ) : r_->push( arr.data(), size_t( o.n ));
@@ -148,7 +148,7 @@ public:
 
     void push( int t, int size )
     {
-        Push p; p.size = size; p.id = next_id_; p.inv = cds_verif::stamp();
+        Push p; p.size = size; p.id = next_id_; cds_verif::stamp_inv( &p.inv );
         uint8_t data[256];
         for ( int i = 0; i < size; ++i ) data[i] = uint8_t( p.id * 37 + i );
         // two-step form so that the harness can report its own write of the record bytes to the HB tracker
@@ -162,7 +162,7 @@ public:
     }
     void pop( int t )
     {
-        Pop p; p.inv = cds_verif::stamp(); p.bytes_ok = true; p.size = 0; p.id = 0;
+        Pop p; cds_verif::stamp_inv( &p.inv ); p.bytes_ok = true; p.size = 0; p.id = 0;
         auto f = r_->front();
         p.got = f.first != nullptr;
         if ( p.got ) {
